@@ -245,6 +245,9 @@ func runC06(c *Ctx, r *Report) {
 	// ---- R-C06.5
 	c065(c, r)
 
+	r.Doc("R-C06.9", "Entry.Verify accepts an entry only through the signature check of that call")
+	verifySigDominates(c, r, "R-C06.9")
+
 	// ---- R-C06.6
 	verify := p.Func("entry", "Entry", "Verify")
 	ne := NewNilEngine(p, c.CG)
@@ -470,7 +473,23 @@ func c063(c *Ctx, r *Report, join *Fn, errVars map[types.Object]bool) {
 		}
 		return true
 	})
+	// or the lookup expression is handed straight to a helper
+	var itemSource *ast.CallExpr
 	if item == nil {
+		walkNoLit(val.Body, func(nd ast.Node) bool {
+			if call, ok := nd.(*ast.CallExpr); ok {
+				if se, ok := ast.Unparen(call.Fun).(*ast.SelectorExpr); ok && (se.Sel.Name == "UnsafeGet" || se.Sel.Name == "Get") {
+					if cid, ok := ast.Unparen(se.X).(*ast.Ident); ok && p.ObjOf(val, cid) == cv {
+						if _, isArg := p.parent[call].(*ast.CallExpr); isArg {
+							itemSource = call
+						}
+					}
+				}
+			}
+			return true
+		})
+	}
+	if item == nil && itemSource == nil {
 		r.Violate("R-C06.3", r.Key("R-C06.3", val, "validated-item", ""), val.Body.Pos(), "the validator does not obtain its item from the validated collection")
 		return
 	}
@@ -497,6 +516,30 @@ func c063(c *Ctx, r *Report, join *Fn, errVars map[types.Object]bool) {
 	vf.Node = func(n ast.Node, f Facts) {
 		walkNoLit(n, func(nd ast.Node) bool {
 			if call, ok := nd.(*ast.CallExpr); ok {
+				// a first-party helper that performs both checks on its argument and returns nil only if both passed
+				if cf := p.Callee(val, call); cf != nil {
+					if h := p.ByObj[cf]; h != nil {
+						for ai, a := range call.Args {
+							isItem := false
+							if id, ok := ast.Unparen(a).(*ast.Ident); ok && p.ObjOf(val, id) == item {
+								isItem = true
+							}
+							if !isItem {
+								if c2, ok := ast.Unparen(a).(*ast.CallExpr); ok && itemSource != nil && types.ExprString(c2) == types.ExprString(itemSource) {
+									isItem = true
+								}
+							}
+							if isItem && fullCheckHelper(p, h, ai) {
+								f["called|CanAppend"], f["called|Verify"] = true, true
+								if as, ok := p.parent[call].(*ast.AssignStmt); ok && len(as.Lhs) == 1 {
+									if id, ok := as.Lhs[0].(*ast.Ident); ok && id.Name != "_" {
+										checkVar[p.ObjOf(val, id)] = "both"
+									}
+								}
+							}
+						}
+					}
+				}
 				if cf := p.Callee(val, call); cf != nil {
 					onItem := false
 					switch cf.Name() {
@@ -536,10 +579,16 @@ func c063(c *Ctx, r *Report, join *Fn, errVars map[types.Object]bool) {
 			if x, isNil, ok := nilTest(a); ok {
 				if id, ok := ast.Unparen(x).(*ast.Ident); ok {
 					if name := checkVar[p.ObjOf(val, id)]; name != "" {
-						if isNil {
-							f["passed|"+name] = true
-						} else {
-							f["failed|"+name] = true
+						names := []string{name}
+						if name == "both" {
+							names = []string{"CanAppend", "Verify"}
+						}
+						for _, nm := range names {
+							if isNil {
+								f["passed|"+nm] = true
+							} else {
+								f["failed|"+nm] = true
+							}
 						}
 					}
 				}
@@ -579,7 +628,81 @@ func c063(c *Ctx, r *Report, join *Fn, errVars map[types.Object]bool) {
 			"accepting exit: CanAppend and Verify were both called on the item and returned nil",
 			"an item is accepted on a path where "+strings.Join(miss, "; ")+": an unauthorised or mis-signed entry can enter the log")
 	})
-	r.Floor("R-C06.3", "validator exits", nexits, 2)
+	r.Floor("R-C06.3", "validator exits", nexits, 1)
+	// R-C06.8: a recorded failure is never overwritten by nil
+	r.Doc("R-C06.8", "what is recorded into the aggregated validation error is never nil (a later successful check cannot erase an earlier failure)")
+	nnFlow := NewNilEngine(p, c.CG).nilFlow(val)
+	nrec := 0
+	nilSafeRecorder := func(rec *Fn) bool {
+		// the assignment to the aggregated error inside the recorder is dominated by param != nil
+		par := paramObjAny(rec, 0)
+		if par == nil {
+			return false
+		}
+		fl := NewNilEngine(p, c.CG).nilFlow(rec)
+		ok := true
+		fl.Visit(func(_ *cfgBlk, n ast.Node, before Facts) {
+			walkNoLit(n, func(nd ast.Node) bool {
+				if as, isAs := nd.(*ast.AssignStmt); isAs {
+					for _, l := range as.Lhs {
+						if id, isId := ast.Unparen(l).(*ast.Ident); isId && errVars[p.ObjOf(rec, id)] {
+							if !before["nn|"+p.ID(par)] {
+								ok = false
+							}
+						}
+					}
+				}
+				return true
+			})
+		})
+		return ok
+	}
+	knownNonNil := func(e ast.Expr, before Facts) bool {
+		e = ast.Unparen(e)
+		switch x := e.(type) {
+		case *ast.Ident:
+			if o := p.ObjOf(val, x); o != nil && before["nn|"+p.ID(o)] {
+				return true
+			}
+		case *ast.SelectorExpr:
+			// a package-level error value
+			if v, ok := p.ObjOf(val, x.Sel).(*types.Var); ok && !v.IsField() && v.Parent() == v.Pkg().Scope() {
+				return true
+			}
+			if _, ok := p.ObjOf(val, x.Sel).(*types.Const); ok {
+				return true // a typed constant converted to error is never nil
+			}
+		case *ast.CallExpr:
+			if se, ok := ast.Unparen(x.Fun).(*ast.SelectorExpr); ok && (se.Sel.Name == "Wrap" || se.Sel.Name == "Errorf" || se.Sel.Name == "New") {
+				return true
+			}
+		}
+		return false
+	}
+	nnFlow.Visit(func(_ *cfgBlk, n ast.Node, before Facts) {
+		walkNoLit(n, func(nd ast.Node) bool {
+			switch x := nd.(type) {
+			case *ast.CallExpr:
+				if t := p.localClosure(val, x); t != nil && recorders[t] && len(x.Args) == 1 {
+					nrec++
+					ok := nilSafeRecorder(t) || knownNonNil(x.Args[0], before)
+					r.Check(ok, "R-C06.8", r.Key("R-C06.8", val, "record", types.ExprString(x.Args[0])), x.Pos(),
+						"the recorded value is known non-nil (or the recorder ignores nil)",
+						"the validator records "+types.ExprString(x.Args[0])+", which is nil when this item is valid: a worker finishing after a failing one resets the aggregated error and the whole batch — bad entry included — is applied")
+				}
+			case *ast.AssignStmt:
+				for i, l := range x.Lhs {
+					if id, ok := ast.Unparen(l).(*ast.Ident); ok && errVars[p.ObjOf(val, id)] && i < len(x.Rhs) {
+						nrec++
+						r.Check(knownNonNil(x.Rhs[i], before), "R-C06.8", r.Key("R-C06.8", val, "record", types.ExprString(x.Rhs[i])), x.Pos(),
+							"the recorded value is known non-nil", "the validator stores a possibly nil value into the aggregated error: a later success erases an earlier failure")
+					}
+				}
+			}
+			return true
+		})
+	})
+	r.Floor("R-C06.8", "error recordings in the validator", nrec, 1)
 	_ = goStmt
 	_ = sort.Strings
 }
@@ -856,4 +979,76 @@ func preSignInputsFinal(c *Ctx, r *Report, rule string) {
 		})
 	})
 	r.Floor(rule, "entry setters after PreSign in CreateEntryWithIO", n, 1)
+}
+
+// fullCheckHelper: h returns nil only on paths where both CanAppend and Verify were called on its idx-th
+// parameter and returned nil.
+func fullCheckHelper(p *Prog, h *Fn, idx int) bool {
+	par := paramObjAny(h, idx)
+	if par == nil || h.Type.Results == nil {
+		return false
+	}
+	checkVar := map[types.Object]string{}
+	fl := &Flow{P: p, Fn: h, Entry: Facts{}}
+	fl.Node = func(n ast.Node, f Facts) {
+		walkNoLit(n, func(nd ast.Node) bool {
+			call, ok := nd.(*ast.CallExpr)
+			if !ok {
+				return true
+			}
+			cf := p.Callee(h, call)
+			if cf == nil {
+				return true
+			}
+			on := false
+			switch cf.Name() {
+			case "CanAppend":
+				if len(call.Args) > 0 {
+					if id, ok := ast.Unparen(call.Args[0]).(*ast.Ident); ok && p.ObjOf(h, id) == par {
+						on = true
+					}
+				}
+			case "Verify":
+				if se, ok := ast.Unparen(call.Fun).(*ast.SelectorExpr); ok {
+					if id, ok := ast.Unparen(se.X).(*ast.Ident); ok && p.ObjOf(h, id) == par {
+						on = true
+					}
+				}
+			}
+			if on {
+				if as, ok := p.parent[call].(*ast.AssignStmt); ok && len(as.Lhs) == 1 {
+					if id, ok := as.Lhs[0].(*ast.Ident); ok && id.Name != "_" {
+						checkVar[p.ObjOf(h, id)] = cf.Name()
+					}
+				}
+			}
+			return true
+		})
+	}
+	fl.Edge = func(cond ast.Expr, taken bool, f Facts) {
+		for _, a := range splitCond(cond, taken) {
+			if x, isNil, ok := nilTest(a); ok && isNil {
+				if id, ok := ast.Unparen(x).(*ast.Ident); ok {
+					if nm := checkVar[p.ObjOf(h, id)]; nm != "" {
+						f["passed|"+nm] = true
+					}
+				}
+			}
+		}
+	}
+	fl.Run()
+	fl.Run()
+	ok, any := true, false
+	fl.Exits(func(_ *cfgBlk, ret *ast.ReturnStmt, at Facts) {
+		if ret == nil {
+			return
+		}
+		if isNil, hasErr := errResultIsNil(p, h, ret); hasErr && isNil {
+			any = true
+			if !at["passed|CanAppend"] || !at["passed|Verify"] {
+				ok = false
+			}
+		}
+	})
+	return ok && any
 }
